@@ -77,6 +77,10 @@ claimed = {
    text="Proof of stream conservation for every Write: logged' ++ buffered' == logged ++ buffered ++ input (ghost byte streams, loop invariant over any chunk), the buffered remainder is newline-free, nothing is logged and nothing buffered while the level is disabled, Write returns (len, nil); writeLine by cases on the first newline (direct-log fast path and buffered path log the same bytes); Sync/Close emit the unterminated rest exactly when it is non-empty. From conservation + newline-freedom the messages are exactly the lines, for every partition of every stream.",
    note=BASE_NOTE + "bytes.Buffer and bytes.IndexByte are assumed (contracts/std/bytesbuf.spec); T-Bytes axioms are trusted; the uniqueness step (conservation + newline-free pieces determine the line split) is a paper lemma. logged[w] is ghost state extended by definition at each call of w.log.",
    ref="7 (C17)"),
+ "C18": dict(
+   text="Proof on the handler: convertSlogLevel is the four-step mapping and monotone (lemma, all int levels); Enabled and Handle consult the core with exactly the mapped level and Handle writes exactly when the core's Check accepts (a nil checked entry ends the call: no stack capture, no attribute walk, no write); the entry carries the record's time and message and the handler's name; attribute conversion by kind (bool, duration, float, int, string, time, uint keep key and value; the empty attribute and a group without attributes are skipped; a keyless group is inlined, a keyed one nested under its key holding exactly its attributes; a LogValuer is resolved first; every result is a well-typed field), group marshaling converts the members in order (verified against the ObjectMarshaler interface contract, so nesting to any depth inherits C01's well-formedness); pending groups are emitted as namespaces once, before the first field that is not skipped, in Handle's per-attribute function and in WithAttrs; WithGroup(\"\") returns the receiver, otherwise the clone gets the receiver's groups plus the new one in a slice of its own; WithAttrs/WithGroup never write the receiver nor any string slot that existed before (isolation by framing); stack capture from the configured slog level with skip 3 + callerSkip.",
+   note=BASE_NOTE + "log/slog accessors (Kind, Bool, ... Group, Resolve, Record.Attrs, NumAttrs) are assumed pure / as documented; zap.Any (default kind) and stacktrace.Take are trusted; the content of the emitted fields beyond key/type/value of the scalar kinds follows from C02/C03 contracts. The caller annotation from record.PC relies on runtime.CallersFrames (assumed).",
+   ref="7 (C18)"),
  "C19": dict(
    text="Proof: open() - at the moment closeAll is called the closers slice holds exactly the sinks whose open succeeded (positional countOK invariant over the call log, any number of paths and failure positions), closeAll closes every element, and it is called exactly on the error path; Open/openSinks/Build sequencing (second Open failing closes the first set; after openSinks succeeded Build cannot fail); redirectStdLogAt restores nothing because it changes nothing on error (ghost std-logger cells); file-URL checks (user, fragment, query, port, host) before exactly the path is opened with O_WRONLY|O_APPEND|O_CREATE 0666; RegisterSink/RegisterEncoder leave the registry untouched on error and add exactly one entry otherwise; scheme normalisation loop.",
    note=BASE_NOTE + "url.Parse, filepath.IsAbs, os.OpenFile, package log and strings.ToLower are assumed; real files and descriptors are outside. Config.buildOptions and zap.New are trusted (not verified). A registered nil factory/constructor would panic at use (RegisterSink does not reject nil) - outside the property.",
